@@ -258,12 +258,13 @@ func VerifC43SlurperReuse() {
 // base 0..1, max = base + k*64Ki + r with k = 1 (1..2 thorough), r in 0..1, i.e.
 // up to two (three) extra buffers. The chunk sizes range over the boundary
 // values {0, 1, len(p)-1, len(p)} of each window and only the first and last
-// byte of a chunk are compared with Bytes() (the rest is the zero fill).
+// byte of a chunk are compared with Bytes() (the rest is the zero fill). One
+// message of up to 4 (6) reads.
 //
-//verif:harness prop=C43 reach=done,probe,toolarge-limit,toolarge-probe,delivered,reader-error,extra-buffer unwind=12 budget=200 thorough.budget=2400
+//verif:harness prop=C43 reach=done,probe,toolarge-limit,toolarge-probe,delivered,reader-error,extra-buffer unwind=12 budget=200 thorough.budget=2400 thorough.paths=300000
 func VerifC43SlurperSteps() {
 	base := uint64(vr.Choice("base", 2))
 	k := uint64(1 + vr.Choice("k", vr.Param(1, 2)))
 	rem := uint64(vr.Choice("rem", 2))
-	verifC43Run(base, base+k*allocationStep+rem, true, vr.Param(4, 7), 0)
+	verifC43Run(base, base+k*allocationStep+rem, true, vr.Param(4, 6), 0)
 }
